@@ -116,7 +116,10 @@ class NeuronSpec:
         return n
 
     def getters(self, c):
-        return {"dt": c.dt, "batchsz": c.batchsz, "dtype": str(c.voltage.dtype).replace("torch.", "")}
+        # every floating-point state tensor (voltage, refractory time, adaptations, ...) must carry the configured dtype
+        dts = {str(c.voltage.dtype).replace("torch.", "")} | {str(v.dtype).replace("torch.", "") for v in c.state_dict().values()
+                                                               if isinstance(v, torch.Tensor) and v.is_floating_point()}
+        return {"dt": c.dt, "batchsz": c.batchsz, "dtype": "+".join(sorted(dts))}
 
     def behaviour(self, c, hist, cfg):
         c.clear()
@@ -322,12 +325,12 @@ def shard(spec, depth, T, only_cfg=None):
 
 def specs(tier):
     out = [SynapseSpec(c) for c in (DeltaCurrent, DeltaPlusCurrent, SingleExponentialCurrent, DoubleExponentialCurrent)]
-    out += [NeuronSpec(n, c) for n, c in (("LIF", LIF), ("ALIF", ALIF), ("QIF", QIF), ("AdEx", AdEx))]
+    from inferno.neural import GLIF1, GLIF2, Izhikevich, EIF
+    out += [NeuronSpec(n, c) for n, c in (("LIF", LIF), ("ALIF", ALIF), ("QIF", QIF), ("AdEx", AdEx), ("GLIF1", GLIF1), ("GLIF2", GLIF2),
+                                          ("Izhikevich", Izhikevich), ("EIF", EIF))]
     out += [ConnectionSpec()]
     out += [ReducerSpec(k) for k in ("trace", "pass", "event", "ca")]
     if tier != "quick":
-        from inferno.neural import GLIF1, GLIF2, Izhikevich, EIF
-        out += [NeuronSpec(n, c) for n, c in (("GLIF1", GLIF1), ("GLIF2", GLIF2), ("Izhikevich", Izhikevich), ("EIF", EIF))]
         out += [ReducerSpec(k) for k in ("nearest", "ema")]
     return out
 
@@ -349,7 +352,7 @@ def run(rep):
     rep.tally.merge(tally)
     c = tally.counts
     rep.assumptions += [
-        "components: 4 synapses, LIF/ALIF/QIF/AdEx, LinearDense (incl. synapse replacement), 4 reducers; setter values from the same small sets as "
+        "components: 4 synapses, all 8 neuron classes, LinearDense (incl. synapse replacement), 4 reducers; setter values from the same small sets as "
         "the constructor configurations; dtype via .to(float64) for neurons",
         "behaviour is compared bitwise on all boolean input histories of length 2 (quick) / 3 (thorough) after clear()",
     ]
